@@ -110,7 +110,7 @@ REPORTED = ("stored_food_feed", "stored_food_biofuels", "outdoor_crops_feed", "o
             "scp_biofuels", "cell_sugar_feed", "cell_sugar_biofuels", "seaweed_feed", "seaweed_biofuels",
             # what is reported as eaten by people, per source
             "stored_food", "outdoor_crops", "seaweed", "cell_sugar", "scp", "greenhouse", "fish", "meat", "milk",
-            "immediate_outdoor_crops", "new_stored_outdoor_crops")
+            "immediate_outdoor_crops", "new_stored_outdoor_crops", "immediate_outdoor_crops_kcals_equivalent")
 
 
 def run_real(item):
